@@ -115,6 +115,11 @@ impl Half {
 struct Conn {
     id: u64,
     rst: bool,
+    /// per side: consecutive reads of a socket that is at end-of-file or reset (nothing will ever
+    /// arrive); a task that keeps doing that spins. After `DEAD_READ_LIMIT` of them the side is
+    /// parked (never ready again) and the run reports the spin.
+    dead_reads: [u32; 2],
+    parked: [bool; 2],
     // halves[0]: bytes written by side 0 and read by side 1; halves[1]: the other way
     halves: [Half; 2],
 }
@@ -171,7 +176,11 @@ pub(crate) struct Net {
     sched_yield_per_mille: u64,
     sched_rng: Rng,
     pub sched_yields: u64,
+    /// set when a task was caught reading a dead socket over and over (see `Conn::dead_reads`)
+    pub spin: Option<String>,
 }
+
+const DEAD_READ_LIMIT: u32 = 2000;
 
 thread_local! {
     static NET: RefCell<Option<Net>> = const { RefCell::new(None) };
@@ -203,6 +212,7 @@ pub(crate) fn reset(seed: u64) {
             sched_yield_per_mille: 0,
             sched_rng: Rng::new(seed ^ 0x5c4e_d01e_7a5c_11ed),
             sched_yields: 0,
+            spin: None,
         })
     });
 }
@@ -304,7 +314,7 @@ pub(crate) fn pair(a: SocketAddr, b: SocketAddr, opts_ab: &PipeOpts, opts_ba: &P
         n.next_conn += 1;
         id
     });
-    let conn = Arc::new(Mutex::new(Conn { id, rst: false, halves: [Half::new(opts_ab, id * 2), Half::new(opts_ba, id * 2 + 1)] }));
+    let conn = Arc::new(Mutex::new(Conn { id, rst: false, dead_reads: [0; 2], parked: [false; 2], halves: [Half::new(opts_ab, id * 2), Half::new(opts_ba, id * 2 + 1)] }));
     (
         TcpStream { conn: conn.clone(), side: 0, local: a, peer: b, fd: devnull() },
         TcpStream { conn, side: 1, local: b, peer: a, fd: devnull() },
@@ -391,6 +401,10 @@ impl TcpStream {
             let rst = c.rst;
             let rxi = self.rx_index();
             let txi = self.tx_index();
+            if c.parked[self.side] {
+                // the task was caught spinning on this dead socket: it sleeps for good, the run goes on
+                return Poll::Pending;
+            }
             c.halves[rxi].deliver_due(now);
             let mut ready = Ready::EMPTY;
             if interest.is_readable() {
@@ -425,18 +439,29 @@ impl TcpStream {
         let id = c.id;
         let rst = c.rst;
         let rxi = self.rx_index();
-        let h = &mut c.halves[rxi];
-        h.deliver_due(now);
-        if h.buf.is_empty() {
-            if rst {
+        c.halves[rxi].deliver_due(now);
+        if c.halves[rxi].buf.is_empty() {
+            if rst || c.halves[rxi].fin_seen {
+                let fin = !rst;
+                c.dead_reads[self.side] += 1;
+                if c.dead_reads[self.side] == DEAD_READ_LIMIT {
+                    c.parked[self.side] = true;
+                    let what = format!("connection {} side {}: {} reads in a row of a socket that is {}", id, self.side, DEAD_READ_LIMIT, if fin { "at end-of-file" } else { "reset" });
+                    NET.with(|n| {
+                        if let Some(net) = n.borrow_mut().as_mut() {
+                            net.spin.get_or_insert(what);
+                        }
+                    });
+                }
+                if fin {
+                    log_event("read-eof", id * 2 + self.side as u64, 0);
+                    return Ok(0);
+                }
                 return Err(io::Error::new(io::ErrorKind::ConnectionReset, "reset by peer"));
-            }
-            if h.fin_seen {
-                log_event("read-eof", id * 2 + self.side as u64, 0);
-                return Ok(0);
             }
             return Err(io::Error::new(io::ErrorKind::WouldBlock, "would block"));
         }
+        let h = &mut c.halves[rxi];
         let limit = match h.frag {
             Frag::Whole => usize::MAX,
             Frag::UpTo(n) => 1 + h.rng.usize_below(n.max(1)),
